@@ -106,6 +106,10 @@ pub fn install_panic_hook() {
     }));
 }
 
+pub fn last_panic_site() -> String {
+    LAST_PANIC.with(|p| p.borrow().clone().map(|(a, b)| format!("{a}: {b}")).unwrap_or_else(|| "?".into()))
+}
+
 fn guarded<T>(f: impl FnOnce() -> Result<T, sd_jwt_rs::error::Error>) -> Outcome<T> {
     LAST_PANIC.with(|p| *p.borrow_mut() = None);
     match catch_unwind(AssertUnwindSafe(f)) {
